@@ -98,7 +98,7 @@ class Run:
 
 
 def build(config, history, comps, out_len, estimator=None, grid=None, operation=None, tol=0.5, perform=True,
-          vectorized=None):
+          vectorized=None, perform_kwargs=None):
     """Construct fresh real objects for `config`, run the real adaptive loop along `history`.
     comps: callable x -> list of out_len floats (component 0 conventionally 'drives', with the scripted
     estimator it is irrelevant).  Returns a Run with sa, op, eo, snaps [(before, after)], result."""
@@ -134,7 +134,8 @@ def build(config, history, comps, out_len, estimator=None, grid=None, operation=
 
     sa.refine = refine_wrapper
     if perform:
-        r.result = sa.performSpatiallyAdaptiv(config["lmin"], config["lmax"], eo, tol=tol, print_output=False)
+        r.result = sa.performSpatiallyAdaptiv(config["lmin"], config["lmax"], eo, tol=tol, print_output=False,
+                                              **(perform_kwargs or {}))
         if hasattr(eo, "pointer") and eo.pointer != len(history):
             from mc.core import HarnessError
             raise HarnessError("adaptive loop executed %d of %d scripted steps" % (eo.pointer, len(history)))
